@@ -1352,6 +1352,27 @@ def _i_option_unwrap(eng, st, frame, args, finfo, t):
     return [(st, ("app", "unwrap", (a,)))]
 
 
+def _i_discr_test(variant_idx, negate=False):
+    """Option::is_some / is_none / Result::is_ok / is_err: fork on the discriminant so that later matches agree"""
+    def h(eng, st, frame, args, finfo, t):
+        v = deref_val(eng, st, args[0])
+        d = eng.discriminant(st, frame, v)
+        if d[0] == "int" and d[1] == d[2]:
+            return [(st, vbool((d[1] == variant_idx) != negate))]
+        if d in st.assume:
+            a = st.assume[d]
+            if a[0] == "int":
+                return [(st, vbool((a[1] == variant_idx) != negate))]
+        s1, s2 = st.fork(), st.fork()
+        s1.cond.append((d, vint(variant_idx)))
+        s1.assume[d] = vint(variant_idx)
+        other = 1 - variant_idx
+        s2.cond.append((d, vint(other)))
+        s2.assume[d] = vint(other)
+        return [(s1, vbool(not negate)), (s2, vbool(negate))]
+    return h
+
+
 def _i_box_new(eng, st, frame, args, finfo, t):
     return [(st, ("app", "Box", (args[0],)))]
 
@@ -1377,6 +1398,10 @@ DEFAULT_INTRINSICS = {
     "std::result::Result::<T, E>::expect": _i_option_unwrap,
     "std::result::Result::<T, E>::unwrap": _i_option_unwrap,
     "std::boxed::Box::<T>::new": _i_box_new,
+    "std::option::Option::<T>::is_some": _i_discr_test(1),
+    "std::option::Option::<T>::is_none": _i_discr_test(1, True),
+    "std::result::Result::<T, E>::is_ok": _i_discr_test(0),
+    "std::result::Result::<T, E>::is_err": _i_discr_test(0, True),
     "std::ops::Index::index": _i_index,
     "<T as std::convert::Into<U>>::into": _i_from_into,
     "std::convert::Into::into": _i_from_into,
